@@ -40,6 +40,7 @@ def required(tier):
         "ws_vs_rule.positions_compared": 2000,
         "layout.comments": 500,
         "layout.rule": 500,
+        "layout.rule_chars": 300,
         "layout.ws": 1000,
         "layout.custom_ws": 300,
         "augmented_production_checked": 100,
@@ -102,6 +103,8 @@ def run(ctx):
     con.report(ctx)
 
 
+CHAR_LAYOUT = "LAYOUT: LayoutItem | LAYOUT LayoutItem | EMPTY;\nLayoutItem: Blanks;\nBlanks: Blank | Blanks Blank;\n"
+CHAR_TERMS = "Blank: /[ \\t\\r\\n]/;"
 CUSTOM_WS = "_~ "
 CUSTOM_FILLERS = ["", "_", "~", " ", "_~", "~ _", "  "]
 
@@ -133,6 +136,9 @@ def one_grammar(ctx, g, alphabet, maxlen):
         "ws": g.text(),
         "rule": g.text(extra_rules=WS_LAYOUT.strip(), extra_terms=WS_TERMS),
         "comments": g.text(extra_rules=COMMENT_LAYOUT.strip(), extra_terms=COMMENT_TERMS),
+        # the same whitespace layout spelled character by character (the layout grammar then
+        # relies on the layout sub-parser's own conflict resolution)
+        "rule_chars": g.text(extra_rules=CHAR_LAYOUT.strip(), extra_terms=CHAR_TERMS),
         "custom_ws": g.text(),
     }
     built = {}
@@ -143,15 +149,23 @@ def one_grammar(ctx, g, alphabet, maxlen):
     try:
         with pgx.watchdog(60):
             for k, t in texts.items():
-                built[k] = parsers_for(t, k, slr)
+                try:
+                    built[k] = parsers_for(t, k, slr)
+                except pgx.CaseTimeout:
+                    raise
+                except Exception as e:  # noqa: BLE001
+                    if k == "ws" or "ws" not in built:
+                        ctx.count("construction_failed:" + type(e).__name__)
+                        return
+                    # the same grammar builds with the ws parameter: a layout given as a rule must build too
+                    ctx.case((t, "build"), True)
+                    ctx.violation("layout-rule-parser-does-not-construct:" + type(e).__name__, {"g": g.to_json(), "texts": texts, "kind": k, "slr": slr}, "GLRParser for the grammar with the %s layout raises %s: %s (it constructs with the ws parameter)" % (k, type(e).__name__, str(e)[:200]))
+                    return
     except pgx.CaseTimeout:
         ctx.inconc("construction timeout")
         return
-    except Exception as e:  # noqa: BLE001
-        ctx.count("construction_failed:" + type(e).__name__)
-        return
     # M-state: the augmented production of the grammar object shared with the layout sub-parser
-    for k in ("rule", "comments"):
+    for k in ("rule", "comments", "rule_chars"):
         pg = built[k][0]
         ctx.count("augmented_production_checked")
         rhs = [s.name for s in list.__iter__(pg.productions[0].rhs)]
@@ -162,7 +176,7 @@ def one_grammar(ctx, g, alphabet, maxlen):
     for w in cfg.all_strings(alphabet, maxlen):
         if not ctx.more():
             return
-        for kind in ("ws", "rule", "comments", "custom_ws"):
+        for kind in ("ws", "rule", "comments", "custom_ws", "rule_chars"):
             if kind != "ws" and rng.random() < 0.5:
                 continue
             fillers = COMMENT_FILLERS if kind == "comments" else (CUSTOM_FILLERS if kind == "custom_ws" else glrwork.LAYOUT_FILLERS)
@@ -173,6 +187,8 @@ def one_grammar(ctx, g, alphabet, maxlen):
         # ws parameter vs ws-equivalent LAYOUT rule on the same text
         t = layout_strings(w, rng, glrwork.LAYOUT_FILLERS)
         ws_vs_rule(ctx, g, built["ws"], built["rule"], dict(case0, kind="ws-vs-rule", w=w, a=t[0]), t[0])
+        if rng.random() < 0.4:
+            ws_vs_rule(ctx, g, built["ws"], built["rule_chars"], dict(case0, kind="ws-vs-rule", rule_kind="rule_chars", w=w, a=t[0]), t[0])
 
 
 def observe(parser, is_glr, inp):
@@ -293,9 +309,16 @@ def replay(case, ctx):
     mon.install()
     try:
         if case["kind"] == "ws-vs-rule":
-            ws_vs_rule(ctx, g, parsers_for(case["texts"]["ws"], "ws", case.get("slr", False)), parsers_for(case["texts"]["rule"], "rule", case.get("slr", False)), case, case["a"])
+            rk = case.get("rule_kind", "rule")
+            ws_vs_rule(ctx, g, parsers_for(case["texts"]["ws"], "ws", case.get("slr", False)), parsers_for(case["texts"][rk], rk, case.get("slr", False)), case, case["a"])
         else:
-            built = parsers_for(case["texts"][case["kind"]], case["kind"], case.get("slr", False))
+            try:
+                built = parsers_for(case["texts"][case["kind"]], case["kind"], case.get("slr", False))
+            except Exception as e:  # noqa: BLE001
+                ctx.violation("layout-rule-parser-does-not-construct:" + type(e).__name__, case, str(e)[:200])
+                return
+            if "w" not in case:
+                return
 
             def recon(t, w):
                 pos = []
